@@ -143,7 +143,7 @@ def step (st : St) (line : String) : St × String :=
     match closure st req with
     | some order =>
       let r := mkRepo st order
-      let reps := freshRun generatedFacts ruleSerRT BuildE2E.pathSer outcomeT Build.generatedFacts BuildE2E.mvE2E execT ruleSerB r
+      let reps := freshRun generatedFacts ruleSerRT BuildE2E.pathSer outcomeT Build.generatedFacts BuildE2E.mvE2E BuildE2E.rsE2E execT ruleSerB r
         (fun k => order.contains k) (fun k => req.contains k)
       let shown := (sortStrs (reps.map (·.1))).map fun k =>
         match reps.lookup k with
